@@ -939,3 +939,63 @@ func (t *Term) short(sb *strings.Builder, budget *int, depth int) {
 		sb.WriteByte(')')
 	}
 }
+
+// Rebase rewrites a quantified body so that the bound variable jv is replaced
+// by an absolute array index: if the body reads select(arr, base + jv) (jv with
+// coefficient one, base free of jv) then jv := a - base for a fresh bound a, so
+// the read becomes select(arr, a) and E-matching on ground selects works.
+func Rebase(jv *Term, body *Term) (*Term, *Term) {
+	var base *Term
+	seen := map[*Term]bool{}
+	var find func(t *Term)
+	find = func(t *Term) {
+		if base != nil || seen[t] {
+			return
+		}
+		seen[t] = true
+		if t.Op == "select" && t.Args[1] != jv {
+			l := linOf(t.Args[1])
+			if c, ok := l.atoms[jv]; ok && c.IsInt64() && c.Int64() == 1 && len(l.atoms) >= 1 {
+				delete(l.atoms, jv)
+				b := l.term()
+				if !contains(b, jv) && !contains(t.Args[0], jv) && !(b.IsConst() && b.Val.Sign() == 0) {
+					base = b
+					return
+				}
+			}
+		}
+		for _, a := range t.Args {
+			find(a)
+		}
+	}
+	find(body)
+	if base == nil {
+		return jv, body
+	}
+	a := Fresh("a!q", Int)
+	nb := Subst(body, map[*Term]*Term{jv: Sub(a, base)})
+	return a, nb
+}
+
+func contains(t, v *Term) bool {
+	memo := map[*Term]bool{}
+	var f func(t *Term) bool
+	f = func(t *Term) bool {
+		if t == v {
+			return true
+		}
+		if r, ok := memo[t]; ok {
+			return r
+		}
+		r := false
+		for _, a := range t.Args {
+			if f(a) {
+				r = true
+				break
+			}
+		}
+		memo[t] = r
+		return r
+	}
+	return f(t)
+}
